@@ -155,7 +155,9 @@ def analyse(code, text):
     data = R.b58check_decode(text)
     good, malformed = R.b58_kinds(params, text)
     seg = [k for k, p in R.decode_address(params, text) if k in ("p2wpkh", "p2wsh", "p2tr")]
-    return dict(data=data, good=[k for k, r in good], malformed=malformed, seg=seg, bech=R.bech32_decode(text) is not None)
+    bech = R.bech32_decode(text)
+    return dict(data=data, good=[k for k, r in good], malformed=malformed, seg=seg, bech=bech is not None,
+                own_hrp=bech is not None and bech[0] == params["hrp"])
 
 
 def malformed_clause(kind, rest):
@@ -215,6 +217,8 @@ def judge(code, ep, text, ana):
             if ep in SEG_EP and any(k in SEG_EP[ep] for k in ana["seg"]):
                 return BAD("refuses-valid", "%s accepts %s" % (ep, ana["seg"][0]), "None", clause="refuses-valid:segwit", kind="segwit", ep=ep)
             return OK("none:valid-other-kind")
+        if ana["own_hrp"]:
+            return OK("none:own-hrp-not-an-address" if ep in SEG_EP else "trivial-none:own-hrp-other-parser")
         return OK("trivial-none")
     ok, c = wrapped(obj_class, o)
     ok2, idn = wrapped(ident, o)
@@ -530,14 +534,17 @@ def text_grid(code, tier, seed):
             ("bech32-bip173-valid-nonsegwit", "a12uel5l"), ("opcode", "OP_DUP"), ("script-text", "OP_DUP OP_HASH160 [%s] OP_EQUALVERIFY OP_CHECKSIG" % ("11" * 20)),
             ("script-bad", "OP_FOO"), ("script-quote", "'abc'"), ("script-unbalanced", "[abc"), ("script-int", "-1 0 16 17"),
             ("hex-32-bytes", "ab" * 32), ("hex-20-bytes", "ab" * 20)]
-    N1 = 5000 if tier == "quick" else 20000
-    N2 = 10 ** 4 if tier == "quick" else 10 ** 5
+    # Base58 decoding in pycoin is quadratic in the length: strings made only of Base58 characters are kept at
+    # NB characters (0.3 s per decode at 2*10^4), strings that fail at an early character or decode linearly at NL
+    main = code in ("BTC", "POLIS", "GRS")
+    NB = 5000 if (tier == "quick" or not main) else 20000
+    NL = 10 ** 4 if tier == "quick" else 10 ** 5
     for lab, t in junk:
         out.append(("junk", lab, t))
-    if code in ("BTC", "POLIS", "GRS") or tier != "quick":
-        for lab, t in (("long-ones", "1" * N2), ("long-z", "z" * N1), ("long-nines", "9" * N2), ("long-hex", "ab" * (N2 // 2)),
-                       ("long-q", "bc1" + "q" * N2), ("long-colon", "H:" + "00" * (N2 // 2)), ("long-P", "P:" + "x" * N2),
-                       ("long-pair", "%s/%s" % ("1" * (N2 // 2), "1" * (N2 // 2))), ("long-spaces", " " * N2)):
+    if main or tier != "quick":
+        for lab, t in (("long-ones", "1" * NL), ("long-z", "z" * NB), ("long-nines", "9" * NB), ("long-hex", "ab" * (NB // 2)),
+                       ("long-q", "bc1" + "q" * NB), ("long-0", "0" * NL), ("long-colon", "H:" + "00" * (NL // 2)), ("long-P", "P:" + "x" * NL),
+                       ("long-pair", "%s/%s" % ("1" * (NL // 2), "1" * (NL // 2))), ("long-spaces", " " * NL)):
             out.append(("junk", "%s:%d" % (lab, len(t)), t))
     return out
 
@@ -553,7 +560,7 @@ class Text(_Base):
         g = text_grid("BTC", tier, seed)
         self.bound = dict(networks=len(NETS), entry_points=EPS, strings_per_network=len(g),
                           groups={k: sum(1 for x in g if x[0] == k) for k in ("colon", "numeric", "junk")},
-                          long_strings="10^4 (quick, BTC/POLIS/GRS) / 10^5 and 2*10^4 base58 characters (thorough, all networks)")
+                          long_strings="quick: 10^4 / 5*10^3 all-Base58 characters on BTC, POLIS, GRS; thorough: 10^5 on all networks, all-Base58 strings 2*10^4 (BTC, POLIS, GRS) or 5*10^3")
 
     def units(self):
         for code in NETS:
